@@ -32,7 +32,7 @@ def variants(n):
 
 def gcfg(n=3, **over):
     c = dict(N=n, K=K, IAcl=IACL, IDao=IDAO, IUpg=IUPG, GovFee=1, GenBal=tuple([6] * n), DaoTokens=5, DaoOwner0=2,
-             AclOwner0=owners(1), AclVariants=variants(n), Amts={-1, 0, 2, 5, 6}, MaxTx=3)
+             AclOwner0=owners(1), AclVariants=variants(n), Amts={-1, 0, 2, 5, 6}, MaxTx=3, GMaxExp=1, TxFocus="all")
     c.update(over)
     return c
 
@@ -68,58 +68,63 @@ def stage(out, prop, tier, seed):
         res = common.run_tlc("MCG", "MCG.cfg", d, timeout=size["mct"], files=files, coverage=(tier == "thorough"))
         common.require_tlc_ok(res, "Gov exhaustive")
         out.add_tlc(res, "Gov exhaustive N=%d MaxTx=%d" % (c["N"], c["MaxTx"]))
-        sc = gcfg(MaxTx=size["depth"] - 2, GovFee=1 + seed % 2)
-        sim = dict(sc, Depth=size["depth"], OneIn=size["onein"])
-        files = tlagen.model("SIMG", "GovSim", sim, spec="SimSpec", constraints=["Emit"])
-        res = common.run_tlc("SIMG", "SIMG.cfg", d, timeout=size["simt"], files=files, simulate="num=%d" % size["num"],
-                             depth=size["depth"] + 2, seed=seed * 31 + 5, workers=min(8, common.NCPU))
-        if res.error:
-            raise common.ToolError("Gov simulation: %s\n%s" % (res.error, res.out[-2000:]))
-        behs = P.parse_beh(res.out)[:size["maxbeh"]]
-        if not behs:
-            raise common.ToolError("Gov simulation produced no behaviours")
-        acts = os.path.join(d, "acts.ndjson")
-        with open(acts, "w") as fh:
-            for b in behs:
-                fh.write(json.dumps(b) + "\n")
-        cp = os.path.join(d, "cfg.json")
-        with open(cp, "w") as fh:
-            json.dump(app_cfg(sc, seed), fh)
-        tr = os.path.join(d, "trace.ndjson")
-        p = common.run_driver("posdrv", ["run", cp, acts, tr], timeout=1800)
-        if p.returncode != 0:
-            raise common.ToolError("posdrv died (rc=%s): %s" % (p.returncode, (p.stderr or p.stdout)[-2000:]))
-        lines = [json.loads(x) for x in open(tr)]
-        tc = dict(sc, TraceFile="trace.ndjson")
-        files = tlagen.model("TRG", "Trace_Gov", tc, spec="TraceSpec", postcondition="TraceAccepted")
-        res = common.run_tlc("TRG", "TRG.cfg", d, timeout=3000, files=files, workers=1)
-        if res.error or res.rc != 0:
-            raise common.ToolError("Gov trace validation did not reach the end of the trace: %s\n%s" % (res.error, res.out[-3000:]))
-        out.cov["traces_validated_against_impl"] += len(behs)
-        out.notes["real_steps_validated"] = len(lines)
-        kinds = {}
-        for ln in lines:
-            k = ln["act"].get("kind", ln["act"]["a"]) + ":" + ln["res"]["class"]
-            kinds[k] = kinds.get(k, 0) + 1
-        out.notes["real_results"] = kinds
-        out.sample({"behaviour_actions": behs[0], "first_tx_line": next(({"act": x["act"], "res": x["res"]["class"], "gov": x["post"]["gov"]} for x in lines if x["act"]["a"] == "Tx"), None)})
+        # two simulated populations: every transaction (mostly rejected ones), and histories of SUCCESSFUL changes by the
+        # rightful owners with up to two export/import restarts in between (what was changed must survive them)
         seen = set()
-        for dv in common.parse_div(res.out):
-            lineno, div, bad = dv["line"], dv["div"], dv["bad"]
-            ln = lines[lineno - 1]
-            sigs = ["%s" % b for b in sorted(bad)] + ["diverge:%s@%s" % (f, ln["act"].get("kind", ln["act"]["a"])) for f in sorted(div)]
-            if prop == "C02":
-                sigs = [x.replace("C17.SupplyIsSum", "C02.SupplyIsSum") for x in sigs
-                        if x == "C17.SupplyIsSum" or x == "C17.DaoOnlyByOwner" or x.startswith("diverge:bal@") or x.startswith("diverge:supply@")]
-            for sig in sigs:
-                key = (sig, ln["act"].get("kind", ""), ln["res"]["class"])
-                if key in seen:
-                    continue
-                seen.add(key)
-                beh = [x["act"] for x in lines if x["b"] == ln["b"] and x["i"] <= ln["i"]]
-                out.violation(sig=sig, what="%s at behaviour %d step %d: %s -> %s" % (sig, ln["b"], ln["i"], json.dumps(ln["act"]), ln["res"]["class"]),
-                              action=ln["act"]["a"], kind=ln["act"].get("kind", ""), result=ln["res"]["class"], diverged=sorted(div), predicates=sorted(bad),
-                              replay={"cfg": app_cfg(sc, seed), "actions": beh, "observed": ln["post"].get("gov"), "bal": ln["post"]["bal"], "result": ln["res"]})
+        for si, (sc, nmax) in enumerate([(gcfg(MaxTx=size["depth"] - 2, GovFee=1 + seed % 2), size["maxbeh"]),
+                                         (gcfg(MaxTx=size["depth"] - 2, GovFee=1 + seed % 2, TxFocus="owner", GMaxExp=2), max(200, size["maxbeh"] // 5))]):
+            sim = dict(sc, Depth=size["depth"], OneIn=size["onein"])
+            files = tlagen.model("SIMG", "GovSim", sim, spec="SimSpec", constraints=["Emit"])
+            res = common.run_tlc("SIMG", "SIMG.cfg", d, timeout=size["simt"], files=files, simulate="num=%d" % size["num"],
+                                 depth=size["depth"] + 2, seed=seed * 31 + 5 + si, workers=min(8, common.NCPU))
+            if res.error:
+                raise common.ToolError("Gov simulation: %s\n%s" % (res.error, res.out[-2000:]))
+            behs = P.parse_beh(res.out)[:nmax]
+            if not behs:
+                raise common.ToolError("Gov simulation produced no behaviours")
+            acts = os.path.join(d, "acts.ndjson")
+            with open(acts, "w") as fh:
+                for b in behs:
+                    fh.write(json.dumps(b) + "\n")
+            cp = os.path.join(d, "cfg.json")
+            with open(cp, "w") as fh:
+                json.dump(app_cfg(sc, seed), fh)
+            tr = os.path.join(d, "trace.ndjson")
+            p = common.run_driver("posdrv", ["run", cp, acts, tr], timeout=1800)
+            if p.returncode != 0:
+                info = P.locate_exit(cp, behs, d, "gov") if p.returncode > 0 else None
+                raise common.ToolError("posdrv died (rc=%s): %s %s" % (p.returncode, (p.stderr or p.stdout)[-2000:],
+                                                                      ("- the process ended inside step %d of %s" % (info["step"], json.dumps(info["behaviour"]))) if info else ""))
+            lines = [json.loads(x) for x in open(tr)]
+            tc = dict(sc, TraceFile="trace.ndjson")
+            files = tlagen.model("TRG", "Trace_Gov", tc, spec="TraceSpec", postcondition="TraceAccepted")
+            res = common.run_tlc("TRG", "TRG.cfg", d, timeout=3000, files=files, workers=1)
+            if res.error or res.rc != 0:
+                raise common.ToolError("Gov trace validation did not reach the end of the trace: %s\n%s" % (res.error, res.out[-3000:]))
+            out.cov["traces_validated_against_impl"] += len(behs)
+            out.notes["real_steps_validated"] = out.notes.get("real_steps_validated", 0) + len(lines)
+            kinds = out.notes.get("real_results", {})
+            for ln in lines:
+                k = ln["act"].get("kind", ln["act"]["a"]) + ":" + ln["res"]["class"]
+                kinds[k] = kinds.get(k, 0) + 1
+            out.notes["real_results"] = kinds
+            out.sample({"behaviour_actions": behs[0], "first_tx_line": next(({"act": x["act"], "res": x["res"]["class"], "gov": x["post"]["gov"]} for x in lines if x["act"]["a"] == "Tx"), None)})
+            for dv in common.parse_div(res.out):
+                lineno, div, bad = dv["line"], dv["div"], dv["bad"]
+                ln = lines[lineno - 1]
+                sigs = ["%s" % b for b in sorted(bad)] + ["diverge:%s@%s" % (f, ln["act"].get("kind", ln["act"]["a"])) for f in sorted(div)]
+                if prop == "C02":
+                    sigs = [x.replace("C17.SupplyIsSum", "C02.SupplyIsSum") for x in sigs
+                            if x == "C17.SupplyIsSum" or x == "C17.DaoOnlyByOwner" or x.startswith("diverge:bal@") or x.startswith("diverge:supply@")]
+                for sig in sigs:
+                    key = (sig, ln["act"].get("kind", ""), ln["res"]["class"])
+                    if key in seen:
+                        continue
+                    seen.add(key)
+                    beh = [x["act"] for x in lines if x["b"] == ln["b"] and x["i"] <= ln["i"]]
+                    out.violation(sig=sig, what="%s at behaviour %d step %d: %s -> %s" % (sig, ln["b"], ln["i"], json.dumps(ln["act"]), ln["res"]["class"]),
+                                  action=ln["act"]["a"], kind=ln["act"].get("kind", ""), result=ln["res"]["class"], diverged=sorted(div), predicates=sorted(bad),
+                                  replay={"cfg": app_cfg(sc, seed), "actions": beh, "observed": ln["post"].get("gov"), "bal": ln["post"]["bal"], "result": ln["res"]})
     return out
 
 
